@@ -44,3 +44,17 @@ package bytetree
 //@   loop 1 modifies nodes[0:cap(nodes)]
 //@   loop 1 invariant backing: (obj(nodes) == obj(entry(nodes)) && off(nodes) == off(entry(nodes)) && cap(nodes) == cap(entry(nodes))) || freshInLoop(nodes)
 //@   loop 1 invariant grows: len(nodes) == len(entry(nodes)) + $i && 0 <= $i && $i <= len(n.edges)
+
+// C06/C01 (one node per group key): when an edge is split for a key that continues below the split point, the new
+// leaf hangs on an edge labelled with exactly the REMAINING part of the key being inserted (key[splitOn:]), and the
+// old subtree on the remaining part of the old label - so the next update of the same key finds the leaf again
+// instead of creating a second node for it. The node that receives the data carries the full key in both cases - also
+// when the key ends at the split point and the new inner node itself is the key's node (a key that is a strict prefix of
+// a stored key, e.g. dims {a: nil} after {a: nil, b: x}) - because Walk reports a row under its node's key.
+//@ func (*edge).split
+//@   requires e != nil && 0 <= splitOn && splitOn <= len(key) && splitOn <= len(e.label)
+//@   modifies *
+//@   at call node).doUpdate assert leaf_edge_is_the_remaining_key: splitOn != len(key) ==> len(newNode.edges) == 2 && newNode.edges[1].target == newLeaf && obj(newNode.edges[1].label) == obj(key) && len(newNode.edges[1].label) == len(key) - splitOn && (forall j in 0..len(key)-splitOn :: newNode.edges[1].label[j] == key[splitOn+j])
+//@   at call node).doUpdate assert old_subtree_on_the_old_remainder: len(newNode.edges) >= 1 && newNode.edges[0].target == old(e.target) && len(newNode.edges[0].label) == old(len(e.label)) - splitOn && e.target == newNode && len(e.label) == splitOn
+//@   at call node).doUpdate assert updates_the_new_leaf: callarg0 == newLeaf && callarg2 == fullKey
+//@   at call node).doUpdate assert leaf_carries_the_full_key: obj(newLeaf.key) == obj(fullKey) && len(newLeaf.key) == len(fullKey) && (forall j in 0..len(fullKey) :: newLeaf.key[j] == fullKey[j])
